@@ -26,7 +26,8 @@ type c01Case struct {
 	V1       bool   `json:"v1"`
 	Storage  string `json:"storage"`
 	Mode     string `json:"mode"`
-	OCSP     string `json:"ocsp"` // none | good | unavailable
+	OCSP     string `json:"ocsp"`    // none | good | unavailable
+	OwnCDP   string `json:"own_cdp"` // configured sources: the certificate's own CDP: none | ldap | down | other (an empty list elsewhere)
 	// observations
 	Positions []int    `json:"positions"`
 	Verdicts  []string `json:"verdicts"`
@@ -54,6 +55,9 @@ func runC01(c *Ctx) {
 					cs := &c01Case{Source: src, Encoding: enc, N: n, Storage: st,
 						Width: 1 + (i*7)%20, EntryExt: i%2 == 0, V1: i%5 == 0,
 						Mode: modes[i%4], OCSP: []string{"none", "good", "unavailable"}[i%3]}
+					if src != "cdp" {
+						cs.OwnCDP = []string{"none", "ldap", "down", "other"}[(i/2)%4]
+					}
 					cases = append(cases, cs)
 				}
 			}
@@ -94,10 +98,11 @@ func runC01(c *Ctx) {
 		}
 		for j, v := range cs.Verdicts {
 			if v == "accept" || v == "panic" || v == "hang" {
-				c.Fail("", fmt.Sprintf("certificate listed at position %d of %d (serial width %d, %s, %s, %s, mode %q, ocsp %s) was %s", cs.Positions[j], cs.N, cs.Width, cs.Source, cs.Encoding, cs.Storage, cs.Mode, cs.OCSP, v), cs)
+				c.Fail("", fmt.Sprintf("certificate listed at position %d of %d (serial width %d, %s, %s, %s, mode %q, ocsp %s, own CDP %q) was %s", cs.Positions[j], cs.N, cs.Width, cs.Source, cs.Encoding, cs.Storage, cs.Mode, cs.OCSP, cs.OwnCDP, v), cs)
 			}
 		}
-		c.Nontrivial(fmt.Sprintf("%s|%s|%d|%d|%s|%s|%s|%v|%v", cs.Source, cs.Encoding, cs.N, cs.Width, cs.Storage, cs.Mode, cs.OCSP, cs.EntryExt, cs.V1))
+		c.Count("own_cdp=" + cs.OwnCDP)
+		c.Nontrivial(fmt.Sprintf("%s|%s|%d|%d|%s|%s|%s|%v|%v|%s", cs.Source, cs.Encoding, cs.N, cs.Width, cs.Storage, cs.Mode, cs.OCSP, cs.EntryExt, cs.V1, cs.OwnCDP))
 		if k%23 == 0 {
 			c.Sample(cs)
 		}
@@ -125,7 +130,7 @@ func runC01(c *Ctx) {
 	}
 	c.WriteCoqSharded("cases_C01", "From Verif Require Import Base Repo RunRepo.\nOpen Scope N_scope.\n", "hcase", items, "repo_mismatches", 12)
 	c.Rep.Cases = len(cases)
-	c.Rep.Rule = "real handshakes through VerifyClientCertificate: source {CDP, crl_urls, crl_files} x encoding {DER, PEM-LF, PEM-CRLF} x entries {1,2,3,40,400(,5000,50000)} x storage, with serial width 1..20, entry extensions, v1/v2, mode {unset, prefer_ocsp, prefer_crl, crl_only} and OCSP answer {none, good, unavailable} rotating; listed serial probed at first / last / middle / entries straddling each 4096-byte boundary; control = an unlisted certificate is accepted under crl_cdp_strict (so the list is in force); distinct by the full tuple"
+	c.Rep.Rule = "real handshakes through VerifyClientCertificate: source {CDP, crl_urls, crl_files} x encoding {DER, PEM-LF, PEM-CRLF} x entries {1,2,3,40,400(,5000,50000)} x storage, with serial width 1..20, entry extensions, v1/v2, mode {unset, prefer_ocsp, prefer_crl, crl_only} and OCSP answer {none, good, unavailable} rotating; listed serial probed at first / last / middle / entries straddling each 4096-byte boundary; for the configured sources the certificate's own CDP rotates over {none, ldap-only, connection refused, another (empty) list}; control = an unlisted certificate is accepted (under crl_cdp_strict where the CDP is usable, so the list is in force); distinct by the full tuple"
 }
 
 func c01Run(c *Ctx, k int, cs *c01Case, r *rand.Rand) {
@@ -196,6 +201,20 @@ func c01Run(c *Ctx, k int, cs *c01Case, r *rand.Rand) {
 		defer os.Remove(p)
 		w.Cfg.CRLFiles = []string{p}
 		w.Cfg.TrustedSigners = []string{writeCertPEM(c, w.CA.Cert)}
+	}
+	// configured sources: the certificate may carry a CDP of its own that is unusable or names another
+	// (empty) list; the configured list is in force all the same
+	switch cs.OwnCDP {
+	case "ldap":
+		cdp = []string{"ldap://dir.example/cn=crl"}
+		w.Cfg.CDPStrict = false
+	case "down":
+		cdp = []string{closedPortURL("/gone.crl")}
+		w.Cfg.CDPStrict = false
+	case "other":
+		w.Lists["E"] = w.CA.MakeDoc(CRLOpts{Entries: []EntryOpts{{Serial: big.NewInt(5)}}}).DER()
+		w.Do(sv("/b", "E"))
+		cdp = []string{w.Org.URL("/b")}
 	}
 	// OCSP
 	var ocspURL []string
